@@ -1,7 +1,978 @@
-//! C18 — not built yet.
-use vcore::Ctx;
+//! C18 — the standard introspection query describes, self-consistently, the type system the server executes and
+//! exports as SDL, restricted to what the request's context may see; hidden elements never appear.
+use crate::execcmp::*;
+use async_graphql::{Request, Response};
+use serde_json::Value as J;
+use vcore::{Case, Ctx, Src};
+use vgql::ast::OpKind;
+use vgql::gensch::*;
+use vgql::gentyped::*;
+use vgql::introspect::*;
+use vgql::print::print_plain;
+use vgql::refexec::{execute, Quirks};
+use vgql::refparse::{parse_type_system, Opts, SdlDef, SdlDoc};
+use vgql::sch::{from_sdl, from_sdl_text, Kind, Sch};
+use vgql::world::*;
+use vschemas::dynbuild::build_dynamic;
+use vschemas::rt::Rt;
 
-pub fn run(_ctx: &mut Ctx) {
-    eprintln!("C18: check not built yet");
-    std::process::exit(2);
+// ------------------------------------------------------------------------------------------------------------
+// static zoo Z
+
+#[allow(dead_code)]
+mod zoo {
+    use async_graphql::*;
+    use futures_util::stream::{self, Stream};
+
+    /// How a pet feels.
+    #[derive(Enum, Copy, Clone, Eq, PartialEq)]
+    pub enum Mood {
+        Happy,
+        #[graphql(name = "GRUMPY_CAT")]
+        Grumpy,
+        /// Mostly asleep.
+        #[graphql(deprecation = "use HAPPY")]
+        Sleepy,
+    }
+
+    pub struct Stamp(pub i32);
+    /// A point in time.
+    #[Scalar(name = "Stamp")]
+    impl ScalarType for Stamp {
+        fn parse(value: Value) -> InputValueResult<Self> {
+            match &value {
+                Value::Number(n) if n.is_i64() => Ok(Stamp(n.as_i64().unwrap() as i32)),
+                _ => Err(InputValueError::expected_type(value)),
+            }
+        }
+        fn to_value(&self) -> Value {
+            Value::from(self.0)
+        }
+    }
+
+    #[derive(InputObject)]
+    pub struct Range {
+        pub lo: i32,
+        #[graphql(default = 10)]
+        pub hi: i32,
+    }
+
+    /// Which pets to return.
+    #[derive(InputObject)]
+    pub struct Filter {
+        /// At most this many.
+        #[graphql(default = 5)]
+        pub limit: i32,
+        pub mood: Option<Mood>,
+        #[graphql(default_with = "vec![\"a\".to_string()]")]
+        pub tags: Vec<String>,
+        pub range: Option<Range>,
+        pub weights: Option<Vec<Option<f64>>>,
+    }
+
+    #[derive(OneofObject)]
+    pub enum Key {
+        Id(ID),
+        Name(String),
+    }
+
+    #[derive(SimpleObject, Clone)]
+    pub struct Dog {
+        pub name: String,
+        pub mood: Mood,
+        #[graphql(deprecation = "use name")]
+        pub nick: Option<String>,
+        pub legs: i32,
+    }
+
+    /// A cat.
+    #[derive(SimpleObject, Clone)]
+    pub struct Cat {
+        pub name: String,
+        pub mood: Mood,
+        pub lives: i32,
+    }
+
+    #[derive(SimpleObject, Clone)]
+    pub struct Robot {
+        pub name: String,
+        pub serial: i32,
+    }
+
+    /// Anything with a name.
+    #[derive(Interface, Clone)]
+    #[graphql(field(name = "name", ty = "&String", desc = "The name."))]
+    pub enum Named {
+        Dog(Dog),
+        Cat(Cat),
+        Robot(Robot),
+        Pet(Pet),
+    }
+
+    #[derive(Interface, Clone)]
+    #[graphql(field(name = "name", ty = "&String"), field(name = "mood", ty = "&Mood"))]
+    pub enum Pet {
+        Dog(Dog),
+        Cat(Cat),
+    }
+
+    #[derive(Union, Clone)]
+    pub enum Thing {
+        Dog(Dog),
+        Robot(Robot),
+    }
+
+    fn dog() -> Dog {
+        Dog { name: "Rex".into(), mood: Mood::Happy, nick: None, legs: 4 }
+    }
+    fn cat() -> Cat {
+        Cat { name: "Tom".into(), mood: Mood::Grumpy, lives: 9 }
+    }
+    fn robot() -> Robot {
+        Robot { name: "R2".into(), serial: 7 }
+    }
+
+    pub struct Query;
+    #[Object]
+    impl Query {
+        /// Find pets.
+        async fn pets(&self, #[graphql(default = 3)] first: i32, #[graphql(desc = "Narrow the result.")] filter: Option<Filter>, #[graphql(default_with = "vec![1, 2]")] ids: Vec<i32>) -> Vec<Pet> {
+            let _ = (first, filter, ids);
+            vec![Pet::Dog(dog()), Pet::Cat(cat())]
+        }
+        async fn named(&self, key: Option<Key>) -> Option<Named> {
+            let _ = key;
+            Some(Named::Robot(robot()))
+        }
+        async fn things(&self) -> Vec<Option<Thing>> {
+            vec![Some(Thing::Dog(dog())), None, Some(Thing::Robot(robot()))]
+        }
+        async fn matrix(&self) -> Vec<Vec<i32>> {
+            vec![vec![1, 2], vec![]]
+        }
+        async fn stamp(&self, at: Option<Stamp>) -> Stamp {
+            at.unwrap_or(Stamp(1))
+        }
+        #[graphql(deprecation = "gone")]
+        async fn old(&self) -> Option<f64> {
+            None
+        }
+        async fn mood(&self, #[graphql(default_with = "Mood::Grumpy")] m: Mood, flag: Option<bool>, #[graphql(default = "x\"y")] label: String) -> Mood {
+            let _ = (flag, label);
+            m
+        }
+    }
+
+    pub struct Mutation;
+    #[Object]
+    impl Mutation {
+        async fn rename(&self, id: ID, name: String) -> Dog {
+            let _ = id;
+            Dog { name, ..dog() }
+        }
+    }
+
+    pub struct Subscription;
+    #[Subscription]
+    impl Subscription {
+        async fn ticks(&self, #[graphql(default = 1)] step: i32) -> impl Stream<Item = i32> {
+            stream::iter(vec![step])
+        }
+    }
+
+    pub type S = Schema<Query, Mutation, Subscription>;
+    pub fn schema() -> S {
+        Schema::build(Query, Mutation, Subscription).finish()
+    }
+}
+
+/// Hand-written description of Z (not derived from the schema under test).
+const Z_EXPECTED: &str = r#"
+"How a pet feels."
+enum Mood { HAPPY GRUMPY_CAT "Mostly asleep." SLEEPY @deprecated(reason: "use HAPPY") }
+"A point in time."
+scalar Stamp
+input Range { lo: Int! hi: Int! = 10 }
+"Which pets to return."
+input Filter { "At most this many." limit: Int! = 5 mood: Mood tags: [String!]! = ["a"] range: Range weights: [Float] }
+input Key @oneOf { id: ID name: String }
+type Dog implements Named & Pet { name: String! mood: Mood! nick: String @deprecated(reason: "use name") legs: Int! }
+"A cat."
+type Cat implements Named & Pet { name: String! mood: Mood! lives: Int! }
+type Robot implements Named { name: String! serial: Int! }
+"Anything with a name."
+interface Named { "The name." name: String! }
+interface Pet implements Named { name: String! mood: Mood! }
+union Thing = Dog | Robot
+type Query {
+  "Find pets."
+  pets(first: Int! = 3, "Narrow the result." filter: Filter, ids: [Int!]! = [1, 2]): [Pet!]!
+  named(key: Key): Named
+  things: [Thing]!
+  matrix: [[Int!]!]!
+  stamp(at: Stamp): Stamp!
+  old: Float @deprecated(reason: "gone")
+  mood(m: Mood! = GRUMPY_CAT, flag: Boolean, label: String! = "x\"y"): Mood!
+}
+type Mutation { rename(id: ID!, name: String!): Dog! }
+type Subscription { ticks(step: Int! = 1): Int! }
+"#;
+
+// ------------------------------------------------------------------------------------------------------------
+// static visibility schema W
+
+#[allow(dead_code)]
+mod vis {
+    use async_graphql::*;
+
+    /// capabilities carried by the request (`Request::data(Caps(..))`); no data = no capability
+    #[derive(Clone, Copy, PartialEq, Eq, Debug)]
+    pub struct Caps(pub u32);
+
+    macro_rules! caps {
+        ($($name:ident = $bit:expr;)*) => {
+            $(pub const $name: u32 = 1 << $bit;)*
+            pub const BITS: &[(&str, u32)] = &[$((stringify!($name), $name)),*];
+        };
+    }
+    caps! {
+        T_ALPHA = 0; T_IOTA = 1; T_ZETA = 2; T_THETA = 3; T_GAMMA = 4; T_KAPPA = 5;
+        F_BETA = 6; F_ALPHA_REF = 7; V_EPSILON = 8; A_DELTA = 9; A_THETA = 10; I_ETA = 11; I_ZETA = 12; F_NU = 13; F_XI = 14;
+    }
+    fn has(ctx: &Context<'_>, mask: u32) -> bool {
+        ctx.data_opt::<Caps>().map_or(0, |c| c.0) & mask == mask
+    }
+    /// a predicate = "all these capabilities are present"; an element that refers to a hideable type also
+    /// requires that type's capability (coherent configurations only)
+    macro_rules! pred {
+        ($($f:ident = $m:expr;)*) => { $(pub fn $f(ctx: &Context<'_>) -> bool { has(ctx, $m) })* };
+    }
+    pred! {
+        t_alpha = T_ALPHA; t_iota = T_IOTA; t_zeta = T_ZETA; t_theta = T_THETA; t_gamma = T_GAMMA; t_kappa = T_KAPPA;
+        f_beta = F_BETA; f_alpha_ref = F_ALPHA_REF | T_ALPHA; v_epsilon = V_EPSILON; a_delta = A_DELTA; a_theta = A_THETA | T_THETA;
+        i_eta = I_ETA; i_zeta = I_ZETA | T_ZETA; f_nu = F_NU; f_xi = F_XI;
+    }
+
+    #[derive(SimpleObject, Clone)]
+    #[graphql(visible = "t_alpha")]
+    pub struct HiddenTypeAlpha {
+        pub code: i32,
+    }
+
+    #[derive(SimpleObject, Clone)]
+    #[graphql(visible = "t_iota")]
+    pub struct HiddenTypeIota {
+        pub id: ID,
+        #[graphql(visible = "f_xi")]
+        pub hidden_iface_field_xi: i32,
+    }
+
+    #[derive(Enum, Copy, Clone, Eq, PartialEq)]
+    pub enum AccountKind {
+        Free,
+        #[graphql(visible = "v_epsilon")]
+        HiddenValueEpsilon,
+        Paid,
+    }
+
+    #[derive(Enum, Copy, Clone, Eq, PartialEq)]
+    #[graphql(visible = "t_zeta")]
+    pub enum HiddenEnumZeta {
+        A,
+        B,
+    }
+
+    #[derive(InputObject)]
+    #[graphql(visible = "t_theta")]
+    pub struct HiddenInputTheta {
+        pub x: i32,
+    }
+
+    #[derive(InputObject)]
+    pub struct Search {
+        pub term: String,
+        #[graphql(visible = "i_eta")]
+        pub hidden_input_field_eta: Option<i32>,
+        #[graphql(visible = "i_zeta")]
+        pub hidden_zeta_ref: Option<HiddenEnumZeta>,
+    }
+
+    /// only used as an argument type
+    #[derive(InputObject)]
+    pub struct Paging {
+        #[graphql(default = 10)]
+        pub size: i32,
+        pub order: Option<SortOrder>,
+    }
+    /// only used inside an input object that is only used as an argument type
+    #[derive(Enum, Copy, Clone, Eq, PartialEq)]
+    pub enum SortOrder {
+        Asc,
+        Desc,
+    }
+
+    #[derive(SimpleObject, Clone)]
+    pub struct Account {
+        pub id: ID,
+        #[graphql(visible = "f_beta")]
+        pub hidden_field_beta: String,
+        #[graphql(visible = "f_alpha_ref")]
+        pub hidden_alpha_ref: Option<HiddenTypeAlpha>,
+        pub kind: AccountKind,
+        #[graphql(visible = "f_xi")]
+        pub hidden_iface_field_xi: i32,
+    }
+
+    #[derive(SimpleObject, Clone)]
+    pub struct Team {
+        pub id: ID,
+        pub size: i32,
+        #[graphql(visible = "f_xi")]
+        pub hidden_iface_field_xi: i32,
+    }
+
+    #[derive(Interface, Clone)]
+    #[graphql(visible = "t_gamma", field(name = "id", ty = "&ID"))]
+    pub enum HiddenIfaceGamma {
+        Account(Account),
+    }
+
+    #[derive(Interface, Clone)]
+    #[graphql(field(name = "id", ty = "&ID"), field(name = "hidden_iface_field_xi", ty = "&i32", visible = "f_xi"))]
+    pub enum Entity {
+        Account(Account),
+        Team(Team),
+        HiddenTypeIota(HiddenTypeIota),
+    }
+
+    #[derive(Union, Clone)]
+    pub enum Subject {
+        Account(Account),
+        Team(Team),
+        HiddenTypeAlpha(HiddenTypeAlpha),
+    }
+
+    #[derive(Union, Clone)]
+    #[graphql(visible = "t_kappa")]
+    pub enum HiddenUnionKappa {
+        Account(Account),
+        Team(Team),
+    }
+
+    fn account() -> Account {
+        Account { id: "a1".into(), hidden_field_beta: "b".into(), hidden_alpha_ref: Some(HiddenTypeAlpha { code: 1 }), kind: AccountKind::Free, hidden_iface_field_xi: 1 }
+    }
+    fn team() -> Team {
+        Team { id: "t1".into(), size: 3, hidden_iface_field_xi: 2 }
+    }
+
+    pub struct Query;
+    #[Object]
+    impl Query {
+        async fn account(
+            &self,
+            #[graphql(visible = "a_delta")] hidden_arg_delta: Option<i32>,
+            search: Option<Search>,
+            paging: Option<Paging>,
+            #[graphql(visible = "a_theta")] hidden_theta_arg: Option<HiddenInputTheta>,
+        ) -> Account {
+            let _ = (hidden_arg_delta, search, paging, hidden_theta_arg);
+            account()
+        }
+        async fn subject(&self) -> Subject {
+            Subject::Team(team())
+        }
+        async fn entities(&self) -> Vec<Entity> {
+            vec![Entity::Account(account()), Entity::Team(team())]
+        }
+        // anchors: every hideable type is referenced by an element that is visible exactly when the type is
+        #[graphql(visible = "t_alpha")]
+        async fn hidden_alpha_anchor(&self) -> Option<HiddenTypeAlpha> {
+            None
+        }
+        #[graphql(visible = "t_iota")]
+        async fn hidden_iota_anchor(&self) -> Option<HiddenTypeIota> {
+            None
+        }
+        #[graphql(visible = "t_zeta")]
+        async fn hidden_zeta_anchor(&self) -> Option<HiddenEnumZeta> {
+            Some(HiddenEnumZeta::B)
+        }
+        async fn anchors(&self, #[graphql(visible = "t_theta")] hidden_theta_anchor: Option<HiddenInputTheta>) -> i32 {
+            hidden_theta_anchor.map_or(0, |t| t.x)
+        }
+        #[graphql(visible = "t_gamma")]
+        async fn hidden_gamma_anchor(&self) -> Option<HiddenIfaceGamma> {
+            Some(HiddenIfaceGamma::Account(account()))
+        }
+        #[graphql(visible = "t_kappa")]
+        async fn hidden_kappa_anchor(&self) -> Vec<HiddenUnionKappa> {
+            vec![HiddenUnionKappa::Team(team())]
+        }
+    }
+
+    pub struct Mutation;
+    #[Object]
+    impl Mutation {
+        async fn touch(&self, id: ID) -> Account {
+            let _ = id;
+            account()
+        }
+        #[graphql(visible = "f_nu")]
+        async fn hidden_mutation_nu(&self, #[graphql(visible = "t_theta")] hidden_theta_nu_arg: Option<HiddenInputTheta>) -> i32 {
+            hidden_theta_nu_arg.map_or(0, |t| t.x)
+        }
+    }
+
+    pub type S = Schema<Query, Mutation, EmptySubscription>;
+    pub fn schema() -> S {
+        Schema::build(Query, Mutation, EmptySubscription).finish()
+    }
+}
+
+/// Hand-written description of W. `@need(cap: "X")` = the element itself is visible only to requests carrying
+/// capability X. On top of that (coherence) a field / argument / input field is visible only if its type is, and
+/// union members / implemented interfaces / possible types follow their types.
+const W_EXPECTED: &str = r#"
+type HiddenTypeAlpha @need(cap: "T_ALPHA") { code: Int! }
+type HiddenTypeIota implements Entity @need(cap: "T_IOTA") { id: ID! hiddenIfaceFieldXi: Int! @need(cap: "F_XI") }
+enum AccountKind { FREE HIDDEN_VALUE_EPSILON @need(cap: "V_EPSILON") PAID }
+enum HiddenEnumZeta @need(cap: "T_ZETA") { A B }
+input HiddenInputTheta @need(cap: "T_THETA") { x: Int! }
+input Search { term: String! hiddenInputFieldEta: Int @need(cap: "I_ETA") hiddenZetaRef: HiddenEnumZeta @need(cap: "I_ZETA") }
+"only used as an argument type"
+input Paging { size: Int! = 10 order: SortOrder }
+"only used inside an input object that is only used as an argument type"
+enum SortOrder { ASC DESC }
+type Account implements HiddenIfaceGamma & Entity {
+  id: ID! hiddenFieldBeta: String! @need(cap: "F_BETA") hiddenAlphaRef: HiddenTypeAlpha @need(cap: "F_ALPHA_REF") kind: AccountKind! hiddenIfaceFieldXi: Int! @need(cap: "F_XI")
+}
+type Team implements Entity { id: ID! size: Int! hiddenIfaceFieldXi: Int! @need(cap: "F_XI") }
+interface HiddenIfaceGamma @need(cap: "T_GAMMA") { id: ID! }
+interface Entity { id: ID! hiddenIfaceFieldXi: Int! @need(cap: "F_XI") }
+union Subject = Account | Team | HiddenTypeAlpha
+union HiddenUnionKappa @need(cap: "T_KAPPA") = Account | Team
+type Query {
+  account(hiddenArgDelta: Int @need(cap: "A_DELTA"), search: Search, paging: Paging, hiddenThetaArg: HiddenInputTheta @need(cap: "A_THETA")): Account!
+  subject: Subject!
+  entities: [Entity!]!
+  hiddenAlphaAnchor: HiddenTypeAlpha
+  hiddenIotaAnchor: HiddenTypeIota
+  hiddenZetaAnchor: HiddenEnumZeta
+  anchors(hiddenThetaAnchor: HiddenInputTheta): Int!
+  hiddenGammaAnchor: HiddenIfaceGamma
+  hiddenKappaAnchor: [HiddenUnionKappa!]!
+}
+type Mutation { touch(id: ID!): Account! hiddenMutationNu(hiddenThetaNuArg: HiddenInputTheta): Int! @need(cap: "F_NU") }
+"#;
+
+fn need(ds: &[vgql::ast::Directive]) -> u32 {
+    ds.iter()
+        .find(|d| d.name.s == "need")
+        .and_then(|d| d.args.iter().find(|(n, _)| n.s == "cap"))
+        .map(|(_, v)| match &v.v {
+            vgql::ast::Val::Str(t) => vis::BITS.iter().find(|(n, _)| n == t).unwrap_or_else(|| panic!("unknown capability {}", t)).1,
+            _ => panic!("@need(cap:) takes a string"),
+        })
+        .unwrap_or(0)
+}
+
+/// The expectation table restricted to a set of capabilities, and the names (sentinels) of every element that is
+/// hidden from it.
+fn restrict(doc: &SdlDoc, caps: u32) -> (Sch, Vec<String>) {
+    let mut hidden = vec![];
+    let mut out = SdlDoc::default();
+    let ok = |n: u32| n & caps == n;
+    let gone: Vec<String> = doc
+        .defs
+        .iter()
+        .filter_map(|d| match d {
+            SdlDef::Type(t) if !ok(need(&t.directives)) => Some(t.name.clone()),
+            _ => None,
+        })
+        .collect();
+    for d in &doc.defs {
+        if let SdlDef::Type(t) = d {
+            if gone.contains(&t.name) {
+                hidden.push(t.name.clone());
+                continue;
+            }
+            let mut t = t.clone();
+            t.interfaces.retain(|i| !gone.contains(i));
+            t.members.retain(|i| !gone.contains(i));
+            let mut keep_input = |a: &vgql::refparse::InputDefn| {
+                let keep = ok(need(&a.directives)) && !gone.iter().any(|g| g == a.ty.base());
+                if !keep {
+                    hidden.push(a.name.clone());
+                }
+                keep
+            };
+            for f in &mut t.fields {
+                f.args.retain(&mut keep_input);
+            }
+            t.input_fields.retain(&mut keep_input);
+            t.fields.retain(|f| {
+                let keep = ok(need(&f.directives)) && !gone.iter().any(|g| g == f.ty.base());
+                if !keep {
+                    hidden.push(f.name.clone());
+                }
+                keep
+            });
+            t.values.retain(|f| {
+                let keep = ok(need(&f.directives));
+                if !keep {
+                    hidden.push(f.name.clone());
+                }
+                keep
+            });
+            out.defs.push(SdlDef::Type(t));
+        }
+    }
+    hidden.sort();
+    hidden.dedup();
+    (from_sdl(&out).expect("expectation table"), hidden)
+}
+
+// ------------------------------------------------------------------------------------------------------------
+// oracle
+
+#[derive(Clone, Debug, PartialEq)]
+enum Dev {
+    Issue(Issue),
+    VsSource(Diff),
+    VsSdl(Diff),
+    Other(String),
+}
+impl Dev {
+    fn show(&self) -> String {
+        match self {
+            Dev::Issue(i) => format!("self-consistency: {}", i.show()),
+            Dev::VsSource(d) => format!("introspection vs source schema: {}", d.show()),
+            Dev::VsSdl(d) => format!("introspection vs exported SDL: {}", d.show()),
+            Dev::Other(s) => s.clone(),
+        }
+    }
+}
+
+/// quirks of the findings: which deviations each one predicts
+struct Quirk {
+    id: &'static str,
+    explains: Box<dyn Fn(&Dev, &Sch, &[Dev]) -> bool>,
+}
+
+fn interfaces_null_for(all: &[Dev], ty: &str) -> bool {
+    all.iter().any(|d| matches!(d, Dev::Issue(Issue::InterfacesNotAList { ty: t, kind: Kind::Interface }) if t == ty))
+}
+
+fn quirks(dynamic: bool) -> Vec<Quirk> {
+    let mut q = vec![Quirk {
+        // `__Type.interfaces` answers null for INTERFACE types (so what an interface implements is unknown to the client)
+        id: "C18-F1",
+        explains: Box::new(|d, expected, all| match d {
+            Dev::Issue(Issue::InterfacesNotAList { kind: Kind::Interface, .. }) => true,
+            Dev::VsSource(x) | Dev::VsSdl(x) if x.what == "interfaces" => {
+                let ty = x.at.trim_end_matches(".interfaces");
+                expected.kind(ty) == Some(Kind::Interface) && interfaces_null_for(all, ty) && x.actual == "[]"
+            }
+            _ => false,
+        }),
+    }];
+    q.push(Quirk {
+        // an interface that implements an interface is reported among the possible types of that interface
+        id: "C18-F3",
+        explains: Box::new(|d, expected, _| match d {
+            Dev::Issue(Issue::WrongKindMember { ty, list: "possibleTypes", member, .. }) => expected.kind(member) == Some(Kind::Interface) && expected.implements(member, ty),
+            Dev::Issue(Issue::PossibleTypes { ty, reported, expected: want }) => {
+                let mut rest: Vec<String> = reported.iter().filter(|m| !(expected.kind(m) == Some(Kind::Interface) && expected.implements(m, ty))).cloned().collect();
+                rest.sort();
+                rest.len() < reported.len() && &rest == want
+            }
+            _ => false,
+        }),
+    });
+    if dynamic {
+        q.push(Quirk {
+            // dynamic schemas do not record which interfaces an interface implements
+            id: "C18-F2",
+            explains: Box::new(|d, expected, all| match d {
+                Dev::VsSource(x) if x.what == "interfaces" => {
+                    let ty = x.at.trim_end_matches(".interfaces");
+                    expected.kind(ty) == Some(Kind::Interface) && !interfaces_null_for(all, ty) && x.actual == "[]"
+                }
+                _ => false,
+            }),
+        });
+    }
+    q
+}
+
+/// Deviations -> verdict. `masked` findings are silently tolerated (main streams), `open` ones attributed (probes).
+fn judge(text: String, devs: Vec<Dev>, expected: &Sch, qs: &[Quirk], open: &[&str], masked: bool) -> Case {
+    let mut ids: Vec<String> = vec![];
+    let mut unexplained = vec![];
+    for d in &devs {
+        match qs.iter().find(|q| open.contains(&q.id) && (q.explains)(d, expected, &devs)) {
+            Some(q) => {
+                if !ids.contains(&q.id.to_string()) {
+                    ids.push(q.id.to_string());
+                }
+            }
+            None => unexplained.push(d.show()),
+        }
+    }
+    if !unexplained.is_empty() {
+        return Case::fail(text, unexplained.join("\n  "));
+    }
+    if ids.is_empty() || masked {
+        Case::pass(text)
+    } else {
+        Case::known(text, ids)
+    }
+}
+
+type Exec<'a> = &'a dyn Fn(Request) -> Response;
+
+fn errors_of(r: &Response) -> String {
+    format!("{:?}", r.errors.iter().map(|e| e.message.clone()).collect::<Vec<_>>())
+}
+
+/// Run the standard query; (a) self-consistency, (b) equality with `expected` and, if given, with the SDL.
+fn introspect(exec: Exec, expected: &Sch, sdl: Option<&str>, ignore_in_sdl: &[&str]) -> Result<(Introspected, Vec<Dev>, String), String> {
+    let resp = exec(Request::new(INTROSPECTION_QUERY));
+    if !resp.errors.is_empty() {
+        return Err(format!("the standard introspection query is answered with errors: {}", errors_of(&resp)));
+    }
+    let data = resp_data(&resp);
+    let text = serde_json::to_string(&data).unwrap();
+    let intro = introspection_to_sch(&data);
+    let mut devs: Vec<Dev> = intro.issues.iter().cloned().map(Dev::Issue).collect();
+    devs.extend(sch_diff(expected, &intro.sch).into_iter().map(Dev::VsSource));
+    if let Some(sdl) = sdl {
+        match from_sdl_text(sdl) {
+            Ok(mut s) => {
+                for n in ignore_in_sdl {
+                    s.types.shift_remove(*n);
+                }
+                devs.extend(sch_diff(&s, &intro.sch).into_iter().map(Dev::VsSdl));
+            }
+            Err(e) => devs.push(Dev::Other(format!("exported SDL: {}", e))),
+        }
+    }
+    for std in ["skip", "include", "deprecated"] {
+        if !intro.directives.iter().any(|d| d.name == std) {
+            devs.push(Dev::Other(format!("directive @{} is not listed", std)));
+        }
+    }
+    Ok((intro, devs, text))
+}
+
+fn unmasked(devs: &[Dev], expected: &Sch, qs: &[Quirk], open: &[&str]) -> usize {
+    devs.iter().filter(|d| !qs.iter().any(|q| open.contains(&q.id) && (q.explains)(d, expected, devs))).count()
+}
+
+// ------------------------------------------------------------------------------------------------------------
+// dynamic schemas
+
+#[derive(Clone)]
+struct DynCfg {
+    inheritance: bool,
+    open: Vec<&'static str>,
+    masked: bool,
+    tcfg: TypedCfg,
+    docs: usize,
+}
+
+/// Remove the leaf and input types nothing refers to (gen_sch reaches every composite type from `Query`).
+fn prune_unreferenced(sch: &mut Sch) {
+    loop {
+        let mut used: Vec<String> = vec![];
+        for t in sch.types.values() {
+            for f in &t.fields {
+                used.push(f.ty.base().to_string());
+                used.extend(f.args.iter().map(|a| a.ty.base().to_string()));
+            }
+            used.extend(t.input_fields.iter().map(|a| a.ty.base().to_string()));
+        }
+        let before = sch.types.len();
+        sch.types.retain(|n, t| !matches!(t.kind, Kind::Scalar | Kind::Enum | Kind::Input) || used.contains(n));
+        if sch.types.len() == before {
+            return;
+        }
+    }
+}
+
+fn dyn_case(s: &mut dyn Src, cfg: &DynCfg) -> Case {
+    let mut sch = gen_sch(s, &SchCfg { subscription: true, interface_inheritance: cfg.inheritance, ..SchCfg::default() });
+    prune_unreferenced(&mut sch);
+    let world = gen_world(&sch, s, &WorldCfg { null_composite_items: false, ..WorldCfg::default() });
+    let rendered = format!("dynamic schema: {}", show_sch(&sch));
+    let rt = Rt::new(world.clone());
+    let schema = match build_dynamic(&sch, &rt, |b| b) {
+        Ok(s) => s,
+        Err(e) => return Case::fail(rendered, format!("HARNESS: generated schema does not build: {}", e)),
+    };
+    let exec = |r: Request| vcore::det::block_on(schema.execute(r));
+    let inherits = sch.types.values().any(|t| t.kind == Kind::Interface && !t.interfaces.is_empty());
+    let qs = quirks(true);
+    let (intro, mut devs, _) = match introspect(&exec, &sch, Some(&schema.sdl()), &[]) {
+        Ok(x) => x,
+        Err(e) => return Case::fail(rendered, e),
+    };
+    let mut rendered = rendered;
+    let mut docs = 0;
+    if unmasked(&devs, &sch, &qs, &cfg.open) == 0 {
+        // (c) the schema a client builds from the answer is the one the server executes
+        for _ in 0..cfg.docs {
+            let mut td = gen_typed_doc(&intro.sch, s, &cfg.tcfg);
+            let text = print_plain(&mut td.doc);
+            let want = match execute(&intro.sch, &td.doc, td.op_name.as_deref(), &td.vars, &world, Quirks::default()) {
+                Ok(w) => w,
+                Err(e) => return Case::fail(rendered, format!("HARNESS: reference executor rejects a generated request {}: {:?}", text, e)),
+            };
+            let resp = exec(request(&text, &td.vars, td.op_name.as_deref()));
+            if let Err(e) = compare(&want, &resp) {
+                rendered.push_str(&format!("\nworld: {}\nquery (generated from the introspected schema): {}\nvariables: {}", world.show(), text, vars_json(&td.vars)));
+                devs.push(Dev::Other(format!("execution disagrees with the introspected schema: {}; errors reported: {}", e, errors_of(&resp))));
+                break;
+            }
+            docs += 1;
+        }
+    }
+    judge(rendered, devs, &sch, &qs, &cfg.open, cfg.masked)
+        .nontrivial(inherits)
+        .class_if(inherits, "interface-inheritance")
+        .class_if(sch.mutation.is_some(), "mutation-root")
+        .class_if(sch.subscription.is_some(), "subscription-root")
+        .class_if(docs > 0, "documents-executed")
+        .class_if(sch.types.values().any(|t| t.one_of), "oneOf-input")
+}
+
+// ------------------------------------------------------------------------------------------------------------
+// static schemas
+
+struct StaticCase<'a> {
+    exec: Exec<'a>,
+    expected: Sch,
+    hidden: Vec<String>,
+    sdl: Option<String>,
+}
+
+/// (a), (b), (d) for one static schema under one context
+fn static_devs(c: &StaticCase) -> Result<(Introspected, Vec<Dev>), String> {
+    let (intro, mut devs, raw) = introspect(c.exec, &c.expected, c.sdl.as_deref(), &[])?;
+    for h in &c.hidden {
+        if raw.contains(h.as_str()) {
+            devs.push(Dev::Other(format!("hidden element {} occurs in the introspection response", h)));
+        }
+    }
+    // __type answers null for hidden types and the type for listed ones
+    let mut q = String::from("{");
+    let names: Vec<&String> = c.hidden.iter().chain(intro.listed.iter()).collect();
+    for (i, n) in names.iter().enumerate() {
+        q.push_str(&format!(" t{}: __type(name: \"{}\") {{ name }}", i, n));
+    }
+    q.push_str(" }");
+    let r = (c.exec)(Request::new(q));
+    let d = resp_data(&r);
+    if !r.errors.is_empty() {
+        devs.push(Dev::Other(format!("__type queries answered with errors {}", errors_of(&r))));
+    }
+    for (i, n) in names.iter().enumerate() {
+        let got = &d[format!("t{}", i)];
+        let want = if i < c.hidden.len() { J::Null } else { serde_json::json!({ "name": n }) };
+        if *got != want {
+            devs.push(Dev::Other(format!("__type(name: \"{}\") answers {}, expected {}", n, got, want)));
+        }
+    }
+    Ok((intro, devs))
+}
+
+/// (c) for static schemas: a document generated from the introspected schema validates and executes
+fn static_doc(s: &mut dyn Src, sch: &Sch, exec: Exec, tcfg: &TypedCfg) -> (String, Option<Dev>, DocStats, bool) {
+    let mut td = gen_typed_doc(sch, s, tcfg);
+    let text = print_plain(&mut td.doc);
+    let rendered = format!("{} variables {}", text, vars_json(&td.vars));
+    let resp = exec(request(&text, &td.vars, td.op_name.as_deref()));
+    let is_mutation = matches!(td.doc.ops().next().map(|o| o.kind), Some(OpKind::Mutation));
+    let dev = if resp.errors.is_empty() && resp_data(&resp).is_object() {
+        None
+    } else {
+        Some(Dev::Other(format!("a document generated from the introspected schema is not executed: {} -> data {} errors {}", rendered, resp_data(&resp), errors_of(&resp))))
+    };
+    (rendered, dev, td.stats, is_mutation)
+}
+
+fn doc_classes(c: Case, st: &DocStats, is_mutation: bool) -> Case {
+    c.class_if(st.interface_cond + st.object_cond + st.union_cond_in_object > 0, "type-condition").class_if(st.vars > 0, "variables").class_if(is_mutation, "mutation")
+}
+
+struct StaticCfg {
+    open: Vec<&'static str>,
+    tcfg: TypedCfg,
+}
+
+fn z_doc_case(s: &mut dyn Src, sch: &Sch, exec: Exec, cfg: &StaticCfg) -> Case {
+    let (rendered, dev, st, is_mutation) = static_doc(s, sch, exec, &cfg.tcfg);
+    let text = format!("Z: {}", rendered);
+    let c = match dev {
+        None => Case::pass(text),
+        Some(d) => Case::fail(text, d.show()),
+    };
+    doc_classes(c.nontrivial(st.fields >= 2), &st, is_mutation)
+}
+
+/// W under one set of capabilities (`None` = request without `Caps` data): introspection, then `docs` documents
+fn w_case(s: &mut dyn Src, ws: &vis::S, table: &SdlDoc, caps: Option<u32>, docs: usize, cfg: &StaticCfg) -> Case {
+    let bits = caps.unwrap_or(0);
+    let all = vis::BITS.iter().fold(0, |a, (_, b)| a | b);
+    let (expected, hidden) = restrict(table, bits);
+    let exec = |r: Request| {
+        let r = match caps {
+            Some(c) => r.data(vis::Caps(c)),
+            None => r,
+        };
+        vcore::det::block_on(ws.execute(r))
+    };
+    let mut text = format!(
+        "W with capabilities {}[{}]",
+        if caps.is_none() { "(no request data) " } else { "" },
+        vis::BITS.iter().filter(|(_, b)| bits & b != 0).map(|(n, _)| *n).collect::<Vec<_>>().join(" ")
+    );
+    let c = StaticCase { exec: &exec, expected, hidden, sdl: if bits == all { Some(ws.sdl()) } else { None } };
+    let qs = quirks(false);
+    let (intro, mut devs) = match static_devs(&c) {
+        Ok(x) => x,
+        Err(e) => return Case::fail(text, e),
+    };
+    let mut acc = (DocStats::default(), false);
+    if unmasked(&devs, &c.expected, &qs, &cfg.open) == 0 {
+        for _ in 0..docs {
+            let (rendered, dev, st, is_mutation) = static_doc(s, &intro.sch, &exec, &cfg.tcfg);
+            text.push_str(&format!("\n  {}", rendered));
+            acc.0.interface_cond += st.interface_cond + st.object_cond + st.union_cond_in_object;
+            acc.0.vars += st.vars;
+            acc.1 |= is_mutation;
+            if let Some(d) = dev {
+                devs.push(d);
+                break;
+            }
+        }
+    }
+    let n_hidden = c.hidden.len();
+    let n_types = table.defs.len();
+    // the main search tolerates (masks) the open findings; the explicit corner cases attribute them
+    doc_classes(judge(text, devs, &c.expected, &qs, &cfg.open, docs > 0).nontrivial(n_hidden > 0), &acc.0, acc.1)
+        .class_if(n_hidden > 0, "hidden-elements")
+        .class_if(n_hidden >= 8, "hidden-elements>=8")
+        .class_if(bits == all, "all-visible")
+        .class_if(c.expected.types.len() < n_types, "hidden-types")
+}
+
+pub fn run(ctx: &mut Ctx) {
+    ctx.rule = "dynamic: random type systems (gen_sch, <=12 types, interface inheritance, oneOf, subscription root; leaf/input types nothing refers to removed) built with build_dynamic; \
+                static: zoo Z, and visibility schema W under random / all subsets of its 15 request-data capabilities. Each case runs the standard introspection query, rebuilds a \
+                client schema from the JSON, checks self-consistency, equality with the source schema restricted to the context and (all-visible contexts) with the exported SDL, \
+                hidden sentinels and __type, and executes documents generated from the introspected schema. Non-trivial = interface inheritance present, or >=1 element hidden from \
+                the context, or (Z document cases) >=2 fields; distinct by rendered case"
+        .into();
+    ctx.assume("only coherent visibility configurations: a field / argument / input field whose type is hidden from a context is itself hidden from it (W's predicates are conjunctions that include the type's capability); union members, implemented interfaces and possible types that are hidden are expected to be filtered out");
+    ctx.assume("every type is referenced by an element that is visible whenever the type is (W's anchor fields); types nothing refers to are outside the domain: introspection omits them (pinned by tests/interface_exporting.rs) while dynamic schemas still export them as SDL, and the statement does not say which is right");
+    ctx.assume("`visible` is documented as affecting introspection only: that a hidden field can still be selected by a client that knows its name is not checked (the statement is about the introspection response)");
+    ctx.assume("deprecated elements carry an explicit reason; arguments and input fields are not deprecated (the standard query does not ask for deprecated input values)");
+    ctx.assume("order of types, fields, arguments, enum values, interfaces and possible types is not compared; default values are compared by what their literal denotes");
+    ctx.assume("built-in scalars and the `__` introspection types are not part of the compared client schema; directive definitions are only checked for the presence of @skip/@include/@deprecated");
+    ctx.assume("static resolvers never fail, so any error in the response to a generated document is a validation / coercion error");
+
+    let dyn_open: Vec<&'static str> = ["C18-F1", "C18-F2"].into_iter().filter(|f| ctx.open(f)).collect();
+    let static_open: Vec<&'static str> = ["C18-F1", "C18-F3"].into_iter().filter(|f| ctx.open(f)).collect();
+    let mut tcfg = TypedCfg::default();
+    tcfg.union_cond_in_object = !ctx.open("C02-F1") && !ctx.open("C01-F1");
+    tcfg.defaulted_directive_vars = !ctx.open("C01-F2");
+    tcfg.omitted_var_with_arg_default = !ctx.open("C06-F1");
+    tcfg.ops = vec![OpKind::Query, OpKind::Mutation];
+    let scfg = StaticCfg { open: static_open.clone(), tcfg: tcfg.clone() };
+    for f in &static_open {
+        ctx.excluded(f);
+    }
+
+    // ---- Z: explicit introspection case (also the witness of C18-F1 / C18-F3), then documents
+    let t0 = std::time::Instant::now();
+    let zs = zoo::schema();
+    let z_expected = from_sdl_text(Z_EXPECTED).expect("Z expectation");
+    let z_exec = |r: Request| vcore::det::block_on(zs.execute(r));
+    let qs = quirks(false);
+    let zc = StaticCase { exec: &z_exec, expected: z_expected.clone(), hidden: vec![], sdl: Some(zs.sdl()) };
+    let ztext = "Z: standard introspection query".to_string();
+    let z_intro = match static_devs(&zc) {
+        Ok((intro, devs)) => {
+            let ok = unmasked(&devs, &z_expected, &qs, &static_open) == 0;
+            ctx.check_case("static-Z-introspection", judge(ztext, devs, &z_expected, &qs, &static_open, false).nontrivial(true).class("Z"), J::Null);
+            if ok {
+                Some(intro)
+            } else {
+                None
+            }
+        }
+        Err(e) => {
+            ctx.check_case("static-Z-introspection", Case::fail(ztext, e), J::Null);
+            None
+        }
+    };
+    ctx.enumerated("static-Z-introspection", 1, true, t0);
+    if let Some(zi) = &z_intro {
+        ctx.stream("static-Z-documents", ctx.tier.pick(10_000, 200_000), 400, |s| z_doc_case(s, &zi.sch, &z_exec, &scfg));
+    }
+
+    // ---- W: corner contexts explicitly (all subsets in the thorough tier), random subsets with documents
+    let t0 = std::time::Instant::now();
+    let ws = vis::schema();
+    let table = parse_type_system(W_EXPECTED, &Opts::default()).expect("W expectation");
+    let all = vis::BITS.iter().fold(0, |a, (_, b)| a | b);
+    let mut corners: Vec<Option<u32>> = vec![None, Some(0), Some(all)];
+    let exhaustive = ctx.tier.pick(false, true);
+    if exhaustive {
+        corners.extend((1..all).map(Some));
+    } else {
+        for (_, b) in vis::BITS {
+            corners.push(Some(*b));
+            corners.push(Some(all & !*b));
+        }
+    }
+    let n = corners.len() as u64;
+    for caps in corners {
+        let case = w_case(&mut vcore::src::VecSrc::new(&[]), &ws, &table, caps, 0, &scfg);
+        if ctx.check_case("static-W-contexts", case, J::Null) {
+            break;
+        }
+    }
+    ctx.enumerated("static-W-contexts", n, true, t0);
+    ctx.note("W_contexts_exhaustive", serde_json::json!(exhaustive));
+    ctx.stream("static-W-random-contexts", ctx.tier.pick(6_000, 100_000), 500, |s| {
+        let mut caps = 0;
+        for (_, b) in vis::BITS {
+            if s.bool() {
+                caps |= b;
+            }
+        }
+        w_case(s, &ws, &table, Some(caps), 2, &scfg)
+    });
+
+    // ---- dynamic schemas
+    let n_dyn = ctx.tier.pick(6_000u32, 200_000);
+    let main = DynCfg { inheritance: !ctx.open("C18-F2"), open: dyn_open.clone(), masked: true, tcfg: tcfg.clone(), docs: 3 };
+    for f in &dyn_open {
+        ctx.excluded(f);
+    }
+    ctx.stream("dynamic", n_dyn, 700, |s| dyn_case(s, &main));
+    if !dyn_open.is_empty() {
+        let probe = DynCfg { inheritance: true, open: dyn_open.clone(), masked: false, tcfg: tcfg.clone(), docs: 1 };
+        ctx.stream("probe-dynamic-interfaces", n_dyn / 20, 700, |s| dyn_case(s, &probe));
+    }
+    ctx.floor("documents-executed", 1000);
+    ctx.floor("hidden-elements", 2000);
+    ctx.floor("hidden-types", 2000);
+    ctx.floor("type-condition", 500);
+    if main.inheritance {
+        ctx.floor("interface-inheritance", 200);
+    }
 }
